@@ -628,7 +628,7 @@ struct mcount_jmpbuf_rstack {
 	unsigned long addr;
 	int count;
 	int record_idx;
-	struct mcount_ret_stack rstack[MCOUNT_RSTACK_MAX];
+	struct mcount_ret_stack *rstack;
 };
 
 static LIST_HEAD(jmpbuf_list);
@@ -645,6 +645,7 @@ static void setup_jmpbuf_rstack(struct mcount_thread_data *mtdp, unsigned long a
 	if (list_no_entry(jbstack, &jmpbuf_list, list)) {
 		jbstack = xmalloc(sizeof(*jbstack));
 		jbstack->addr = addr;
+		jbstack->rstack = NULL;
 
 		list_add(&jbstack->list, &jmpbuf_list);
 	}
@@ -654,6 +655,8 @@ static void setup_jmpbuf_rstack(struct mcount_thread_data *mtdp, unsigned long a
 	/* currently, only saves a single jmpbuf */
 	jbstack->count = mtdp->idx;
 	jbstack->record_idx = mtdp->record_idx;
+	/* --max-stack can be bigger than MCOUNT_RSTACK_MAX */
+	jbstack->rstack = xrealloc(jbstack->rstack, jbstack->count * sizeof(*jbstack->rstack));
 
 	for (i = 0; i < jbstack->count; i++)
 		jbstack->rstack[i] = mtdp->rstack[i];
